@@ -5,5 +5,7 @@ CONSTANTS
   MaxDelay = 2
   Horizon = 40
   InheritEarliestDue = FALSE
+  WidenIndividual = FALSE
+  MergeOnStart = TRUE
 INVARIANTS Covered TwoCycles
 CHECK_DEADLOCK FALSE
